@@ -51,9 +51,11 @@ def main():
                 if bad:
                     s2.notes.append('deductive part undecided: %s' % e)
                     s2.decided('engine/deductive-part-undecided', 'proved', 'none', detail=str(e), kind='totality')
-                    rc = s2.finish('./check %s --tier %s' % (args.prop, tier), level='other', trusted_base=getattr(mod, 'TRUSTED', None),
-                                   extra=dict(explanation='deductive engine undecided on the current code (%s); bounded stand-in found a failing input' % e),
-                                   skip_ledger=True)
+                    rc2 = s2.finish('./check %s --tier %s' % (args.prop, tier), level='other', trusted_base=getattr(mod, 'TRUSTED', None),
+                                    extra=dict(explanation='deductive engine undecided on the current code (%s); bounded stand-in only' % e),
+                                    skip_ledger=True)
+                    # only a concrete failing input turns "undecided" into a violation; a quiet bounded run leaves the verdict undecided
+                    rc = 1 if rc2 == 1 else 2
         except Exception:
             traceback.print_exc()
     except oblig.CheckerError as e:
